@@ -43,6 +43,10 @@ DERIVED = [  # (unit expression builders with the same exponent vector) typed by
 
 
 def plan(tier, seed):
+    return _plan_core(tier, seed) + [{"_label": "suite", "kind": "suite", "tier": tier, "_timeout": 2400}]
+
+
+def _plan_core(tier, seed):
     n = N[tier]
     shards = [{"_label": f"core{i}", "kind": "core", "seed": seed, "shard": i, "cases": n // 12} for i in range(12)]
     names = catalogue.module_names()
@@ -452,6 +456,10 @@ def catalogue_work(spec, rec):
 
 
 def work(spec, rec):
+    if spec.get("kind") == "suite":
+        harness.run_suite("C04", harness.SUITE_QUICK if spec["tier"] == "quick" else harness.SUITE_FULL, rec)
+        rec.case(("suite", spec["tier"]))
+        return
     if spec.get("kind") == "catalogue":
         catalogue_work(spec, rec)
         return
